@@ -592,6 +592,108 @@ def run_elem_case(c):
     return spec_line(c['spec'], X, Y, fc, fd), status, R, problems, nontrivial
 
 
+MODEL_OP = {'add': 'addE', 'sub': 'subE', 'mul': 'mulE', 'div': 'divE', 'iadd': 'iaddE',
+            'isub': 'isubE', 'imul': 'imulE', 'idiv': 'idivE', 'neg': 'neg', 'pos': 'pos',
+            'copy': 'pos', 'assign': 'assign', 'set_zero': 'setZero', 'adds': 'addS',
+            'radds': 'addS', 'subs': 'subS', 'rsubs': 'rsubS', 'muls': 'mulS', 'rmuls': 'mulS',
+            'divs': 'divS', 'rdivs': 'rdivS', 'iadds': 'iaddS', 'isubs': 'isubS',
+            'imuls': 'imulS', 'idivs': 'idivS', 'add_self': 'addE', 'sub_self': 'subE',
+            'mul_self': 'mulE', 'iadd_self': 'iaddE', 'isub_self': 'isubE',
+            'imul_self': 'imulE', 'idiv_self': 'idivE', 'sp_multiply': None,
+            'el_lincomb1': None}
+
+
+def lv(v):
+    return ','.join((fs(p[0]) if p[1] == 0 else fs(p[0]) + ':' + fs(p[1])) for p in v) or '-'
+
+
+def stmt_line(c, X, Y, fc):
+    """Protocol line for the statement-level model of the operator (Model/ElemOps.lean)."""
+    name = c['op']
+    if name.startswith('ipow') or name.startswith('pow'):
+        return 'ipow p={} n={} x={}'.format(name.lstrip('ipow'), len(X), lv(X))
+    mop = MODEL_OP.get(name)
+    if mop is None:
+        return None
+    alias = 1 if c['okind'].startswith('xx') else 0
+    cc = fs(fc[0]) if fc[1] == 0 else fs(fc[0]) + ':' + fs(fc[1])
+    return 'elemop op={} alias={} c={} n={} x={} y={}'.format(mop, alias, cc, len(X), lv(X),
+                                                              lv(Y) if not alias else '-')
+
+
+def leaf_parts(x):
+    import odl
+    if isinstance(x.space, odl.ProductSpace):
+        out = []
+        for p in x:
+            out.extend(leaf_parts(p))
+        return out
+    return [x]
+
+
+def plincomb_cases(ctx):
+    rng = ctx.rng
+    for sname, space in space_zoo(ctx):
+        import odl
+        if not isinstance(space, odl.ProductSpace):
+            continue
+        is_c = np.issubdtype(base_dtype(space), np.complexfloating)
+        for alias, ids in ALIASES.items():
+            for rep in range(2 if ctx.quick else 6):
+                scal = [0, 1, -1, 2, -0.5] + ([1j, 1 - 1j] if is_c else [])
+                a, b = rng.choice(scal), rng.choice(scal)
+                elems = {}
+                for bid in sorted(set(ids)):
+                    elems[bid] = rand_elem(space, rng)
+                yield dict(kind='plincomb', space=sname, alias=alias, a=a, b=b, elems=elems,
+                           ids=ids, sp=space)
+
+
+def run_plincomb_case(c):
+    space, ids, elems = c['sp'], c['ids'], c['elems']
+    x1, x2, out = elems[ids[0]], elems[ids[1]], elems[ids[2]]
+    # leaf buffers: numbering by (element id, leaf index)
+    leaves = {bid: leaf_parts(e) for bid, e in elems.items()}
+    nleaf = len(leaves[ids[0]])
+    order = sorted(elems)
+    num = {(bid, k): i * nleaf + k for i, bid in enumerate(order) for k in range(nleaf)}
+    pre = {key: exact_list(leaves[key[0]][key[1]].asarray()) for key in num}
+    bufs = [None] * len(num)
+    for key, i in num.items():
+        bufs[i] = lv(pre[key])
+    line = 'plincomb a={} b={} xs={} ys={} os={} bufs={}'.format(
+        cs(c['a']), cs(c['b']),
+        ','.join(str(num[(ids[0], k)]) for k in range(nleaf)),
+        ','.join(str(num[(ids[1], k)]) for k in range(nleaf)),
+        ','.join(str(num[(ids[2], k)]) for k in range(nleaf)), '|'.join(bufs))
+    try:
+        ret = space.lincomb(c['a'], x1, c['b'], x2, out=out)
+        status = 'ok'
+    except Exception as e:  # noqa
+        status = 'err:' + type(e).__name__ + ':' + str(e)[:120]
+        ret = None
+    post = {key: exact_list(leaves[key[0]][key[1]].asarray()) for key in num}
+    fa, fb = fval(c['a']), fval(c['b'])
+    problems = []
+    if status != 'ok':
+        problems.append(status)
+    else:
+        if ret is not out:
+            problems.append('lincomb did not return out')
+        for k in range(nleaf):
+            exp = [cadd(cmul(fa, u), cmul(fb, v)) for u, v in
+                   zip(pre[(ids[0], k)], pre[(ids[1], k)])]
+            if post[(ids[2], k)] != exp:
+                problems.append('part {} of out != a*x1+b*x2'.format(k))
+        for key in num:
+            if key[0] != ids[2] and post[key] != pre[key]:
+                problems.append('operand part {} modified'.format(key))
+    postl = [None] * len(num)
+    for key, i in num.items():
+        postl[i] = post[key]
+    return line, status, postl, problems
+
+
 def regenerate(ctx):
     changed = extract_lincomb.regenerate()
     return [('extract(_lincomb_impl -> Gen/LincombTree.lean)', True,
@@ -642,6 +744,65 @@ def run(ctx, deep=False):
         mv = parse_cl(ans[len('ok r='):])
         if mv != R:
             ctx.disagree(desc, R[:6], mv[:6])
+    # --- statement-level model of the operators (Model/ElemOps.lean) vs the real code
+    sbatch, slines = [], []
+    for c in elem_cases(ctx):
+        X = exact_list(flat(c['x']))
+        Y = exact_list(flat(c['y']))
+        line = stmt_line(c, X, Y, fval(c['c']))
+        if line is None:
+            continue
+        in_place = c['op'].startswith('i') or c['op'] in ('assign', 'set_zero')
+        try:
+            res = c['action'](c['x'], c['y'], c['c'])
+            R = exact_list(flat(res))
+            XP = exact_list(flat(c['x']))
+            YP = exact_list(flat(c['y']))
+            status = 'ok'
+        except Exception as e:  # noqa
+            status = 'err:' + type(e).__name__
+            R = XP = YP = None
+        sbatch.append((c, status, R, XP, YP))
+        slines.append(line)
+    souts = core.run_driver('C01', slines)
+    for (c, status, R, XP, YP), ans, line in zip(sbatch, souts, slines):
+        desc = {'kind': 'elem-stmt', 'space': c['space'], 'op': c['op'], 'line': line[:300]}
+        ctx.case(('stmt', c['space'], c['op']) if R and any(v != (0, 0) for v in R) else None)
+        ctx.hit('stmt/' + line.split()[1] if line.startswith('elemop') else 'stmt/ipow')
+        if status != 'ok' or not ans.startswith('ok'):
+            if status == 'ok' or ans.startswith('ok'):
+                ctx.disagree(desc, status, ans[:200])
+            continue
+        f = dict(t.split('=', 1) for t in ans.split()[1:])
+        if line.startswith('ipow'):
+            if parse_cl(f['x']) != R:
+                ctx.disagree(desc, R[:6], f['x'][:200])
+            continue
+        if parse_cl(f['res']) != R or parse_cl(f['x']) != XP or \
+                (c['y'] is not c['x'] and parse_cl(f['y']) != YP):
+            ctx.disagree(desc, {'res': R[:6], 'x': XP[:6], 'y': YP[:6]}, ans[:300])
+    # --- product-space lincomb, all alias patterns
+    pbatch, plines = [], []
+    for c in plincomb_cases(ctx):
+        line, status, postl, problems = run_plincomb_case(c)
+        pbatch.append((c, status, postl, problems))
+        plines.append(line)
+    pouts = core.run_driver('C01', plines)
+    for (c, status, postl, problems), ans, line in zip(pbatch, pouts, plines):
+        desc = {'kind': 'plincomb', 'space': c['space'], 'alias': c['alias'], 'a': str(c['a']),
+                'b': str(c['b']), 'line': line[:300]}
+        ctx.case(('plincomb', c['space'], c['alias'], str(c['a']), str(c['b'])))
+        ctx.hit('plincomb/' + c['alias'])
+        if problems:
+            ctx.violation('plincomb space={} alias={} a={} b={}'.format(
+                c['space'], c['alias'], c['a'], c['b']), '; '.join(problems)[:400], desc)
+        if status != 'ok' or not ans.startswith('ok bufs='):
+            if status == 'ok' or ans.startswith('ok'):
+                ctx.disagree(desc, status, ans[:200])
+            continue
+        mv = [parse_cl(t) for t in ans[len('ok bufs='):].split('|')]
+        if mv != postl:
+            ctx.disagree(desc, [p[:4] for p in postl], [p[:4] for p in mv])
 
 
 def search(ctx, broken):
